@@ -213,6 +213,12 @@ func (spec *Spec) ParsePatterns(ctx context.Context) error {
 			b.Pattern = x
 		}
 	}
+
+	// The patterns are now in parsed form: parsing them again (say
+	// during another Compile, or after this Spec has been
+	// serialized and reloaded) would parse the result of parsing.
+	spec.PatternSyntax = "none"
+
 	return nil
 }
 
@@ -290,15 +296,7 @@ func (spec *Spec) Compile(ctx context.Context, interpreters Interpreters, force 
 			if b == nil {
 				return errors.New("nil branch at node '" + name + "'")
 			}
-			x, err := spec.PatternParser(spec.PatternSyntax, b.Pattern)
-			if err != nil {
-				return err
-			}
-			// ToDo: Remove
-			if x, err = Canonicalize(x); err != nil {
-				return err
-			}
-			b.Pattern = x
+			// ParsePatterns (above) has parsed b.Pattern.
 			if b.GuardSource != nil && (force || b.Guard == nil) {
 				guard, err := b.GuardSource.Compile(ctx, interpreters)
 				if err != nil {
